@@ -252,3 +252,52 @@ Proof.
   { unfold wf. vm_compute. repeat (constructor; [simpl; intuition discriminate|]). constructor. }
   repeat split; vm_compute; reflexivity.
 Qed.
+
+(* ---- the two "by construction" facts, from well-formedness alone *)
+Lemma suffix_from_hd x c : hd_error c = Some x -> suffix_from x c = Some c.
+Proof. destruct c as [|y t]; simpl; [discriminate|]. intros [= ->]. rewrite Nat.eqb_refl. reflexivity. Qed.
+
+Lemma in_concat_of {A} (c : list A) cs x : In c cs -> In x c -> In x (concat cs).
+Proof. intros H1 H2. apply in_concat. exists c. auto. Qed.
+
+Lemma find_chain_whole cs c x :
+  NoDup (concat cs) -> In c cs -> hd_error c = Some x -> find_chain x cs = c.
+Proof.
+  induction cs as [|c0 r IH]; intros ND Hin Hhd; [destruct Hin|].
+  simpl in ND. simpl.
+  assert (Hxc : In x c) by (destruct c; simpl in Hhd; [discriminate|injection Hhd as ->; left; reflexivity]).
+  destruct (In_dec_nat x c0) as [H0|H0].
+  - (* x in c0: by NoDup c must be c0 itself *)
+    destruct Hin as [->|Hin]; [rewrite (suffix_from_hd _ _ Hhd); reflexivity|].
+    exfalso. apply (NoDup_app_disj _ _ x ND H0). eapply in_concat_of; eauto.
+  - rewrite (suffix_from_none _ _ H0).
+    destruct Hin as [->|Hin]; [contradiction|].
+    apply IH; [eapply NoDup_app_r; eauto|exact Hin|exact Hhd].
+Qed.
+
+Lemma parent_chain_from w p fr :
+  wf w -> In p (w_parents w) -> hd_error p = Some fr -> chain_from w fr = p.
+Proof.
+  intros ND Hin Hhd. unfold chain_from. apply find_chain_whole; [exact ND| |exact Hhd].
+  unfold all_chains. right. apply in_or_app. left. exact Hin.
+Qed.
+
+Lemma parent_segment w p :
+  In p (w_parents w) -> exists A B, thread_frames w = A ++ p ++ B.
+Proof.
+  intros Hin. destruct (in_split _ _ Hin) as [l1 [l2 E]].
+  exists (caller_chain w ++ concat l1), (concat l2).
+  unfold thread_frames. rewrite E. rewrite concat_app. simpl. rewrite <- !app_assoc. reflexivity.
+Qed.
+
+(* a suspended ancestor of the asker = a greenlet whose gr_frame heads one of the asker's parent
+   chains: exactly that chain, on wf alone *)
+Lemma suspended_ancestor_wf w g fr p :
+  wf w -> true_caller w <> None ->
+  g_frame g = Some fr -> In p (w_parents w) -> hd_error p = Some fr ->
+  unwrap_greenlet w g = GSlice (SFrames (rev p)).
+Proof.
+  intros Hwf Htc Hf Hin Hhd.
+  destruct (parent_segment w p Hin) as [A [B HT]].
+  exact (suspended_ancestor w g fr A p B Hwf Htc Hf (parent_chain_from w p fr Hwf Hin Hhd) Hhd HT).
+Qed.
